@@ -1528,6 +1528,18 @@ func (e *exprEnv) resolveModifies(m string) ([]modTarget, error) {
 				}
 			}
 		}
+		// pkg.T.f ?
+		if sx, ok := n.X.(*ast.SelectorExpr); ok {
+			if pid, ok := sx.X.(*ast.Ident); ok && e.importedPkg(pid.Name) != nil {
+				if T, err := e.resolveType(sx); err == nil {
+					path, fv := fieldPath(T, n.Sel.Name, nil)
+					if fv == nil || len(path) != 1 {
+						return nil, fmt.Errorf("no direct field %s in %s", n.Sel.Name, T)
+					}
+					return []modTarget{{arr: fieldArr(T, fv.Name()), desc: arrDesc{'F', fv.Type()}, sort: arrOf(B.sortOf(fv.Type()))}}, nil
+				}
+			}
+		}
 		v, err := e.expr(n.X)
 		if err != nil {
 			return nil, err
